@@ -111,6 +111,7 @@ type checkItem struct {
 	Good   bool
 	Cover  bool
 	Func   string
+	Replay *ReplayResult
 }
 
 func cmdCheck(args []string) int {
@@ -312,6 +313,10 @@ func cmdCheck(args []string) int {
 			it.Pos = fmt.Sprintf("%s:%d", shortFile(o.Pos.Filename), o.Pos.Line)
 		}
 		solverSecs += o.Result.Seconds
+		if !o.Cover && o.Result.Status == "sat" && (o.Kind == "safety" || o.Kind == "ensures") {
+			// a model: try to reproduce it on the real code
+			it.Replay = TryReplay(o, o.Clause, *repo, workDir())
+		}
 		if o.Cover {
 			it.Good = o.Result.Status != "unsat"
 		} else {
@@ -400,7 +405,19 @@ func cmdCheck(args []string) int {
 		rp := filepath.Join(replayDir, fmt.Sprintf("%x.txt", h[:6]))
 		var sb strings.Builder
 		fmt.Fprintf(&sb, "property: %s\nfailed obligation: %s\nkind: %s\nat: %s\nwhat: %s\nsolver status: %s (%s, %.2fs)\n", *prop, it.Name, it.Kind, it.Pos, it.Text, it.Status, it.Solver, it.Secs)
-		fmt.Fprintf(&sb, "failing input: none found (the verifier gave no model that could be replayed)\n")
+		suffix := " no-failing-input-found"
+		if it.Replay != nil && it.Replay.Reproduced {
+			suffix = ""
+			fmt.Fprintf(&sb, "failing input: %s\n--- in-package test generated from the solver's model (run with go test -overlay) ---\n%s\n--- its output on the real code ---\n%s\n", it.Replay.Note, it.Replay.TestSrc, it.Replay.Output)
+		} else {
+			fmt.Fprintf(&sb, "failing input: none found (the verifier gave no model that could be replayed)\n")
+			if it.Replay != nil {
+				fmt.Fprintf(&sb, "replay attempt: %s\n", it.Replay.Note)
+				if it.Replay.TestSrc != "" {
+					fmt.Fprintf(&sb, "--- generated test ---\n%s\n--- output ---\n%s\n", it.Replay.TestSrc, it.Replay.Output)
+				}
+			}
+		}
 		if it.Query != "" {
 			dst := strings.TrimSuffix(rp, ".txt") + ".smt2"
 			if qd, err := os.ReadFile(it.Query); err == nil {
@@ -412,7 +429,10 @@ func cmdCheck(args []string) int {
 		fmt.Fprintf(&sb, "re-run: %s/bin/govc func -repo %s %s\n", root, *repo, it.Func)
 		os.WriteFile(rp, []byte(sb.String()), 0o644)
 		fmt.Printf("FAILED-OBLIGATION %s [%s] %s: %s\n", it.Name, it.Status, it.Pos, it.Text)
-		fmt.Printf("VIOLATION property=%s replay=%s no-failing-input-found\n", *prop, rp)
+		if suffix == "" {
+			fmt.Printf("REPLAYED %s: %s\n", it.Name, it.Replay.Note)
+		}
+		fmt.Printf("VIOLATION property=%s replay=%s%s\n", *prop, rp, suffix)
 	}
 	if *verbose {
 		for _, it := range items {
